@@ -15,13 +15,13 @@ AUDIT = {
         'buf_idx < buf.len() <= isize::MAX',
     "<io::fasta::IndexedReaderIterator<'a, R> as std::iter::Iterator>::next|index|index(arg1.buf,0)<std::vec::Vec<u8>>":
         'fill_buffer returned Ok, and it loops `while self.buf.is_empty()`: the buffer holds at least one base',
-    'io::fasta::IndexedReader::<R>::read_into_buffer|overflow-sub|x0,(Try>::branch(IndexedReader::read_line(arg1,arg2,x1,x0,arg5)) as Continue).0':
+    'io::fasta::IndexedReader::<R>::read_into_buffer|overflow-sub|x0,val(IndexedReader::read_line(arg1,arg2,x1,x0,arg5))':
         'read_line returns bytes_to_keep <= bases_left (both branches of its min logic)',
     'io::fasta::IndexedReader::<R>::read_line|overflow-sub|arg2.line_bases,cmp::min(arg2.line_bases,arg3)':
         'min(a, x) <= a',
     'io::fasta::IndexedReader::<R>::read_line|overflow-sub|arg2.line_bytes,arg3':
         'line_offset < line_bytes: seek_to returns start % line_bases < line_bases <= line_bytes and read_line resets the offset to 0 when it reaches line_bytes',
-    'io::fasta::IndexedReader::<R>::read_line|index|index((Try>::branch(BufRead>::fill_buf(arg1.reader)) as Continue).0,RangeTo::RangeTo{x0})<[u8]>':
+    'io::fasta::IndexedReader::<R>::read_line|index|index(val(BufRead>::fill_buf(arg1.reader)),RangeTo::RangeTo{x0})<[u8]>':
         'bytes_to_keep <= bases_in_buffer <= src.len()',
     'io::fasta::IndexedReader::<R>::read_line|overflow-add|arg3,x0':
         'line_offset + bytes_to_read <= line_bytes <= u64::MAX',
@@ -39,7 +39,7 @@ AUDIT = {
         'file offsets of an existing file fit u64',
     "io::fasta::IndexedReaderIterator::<'a, R>::fill_buffer|explicit-panic|panic(lit)<>":
         'assert!(self.bases_left > 0): the only caller (next) calls it on the edge bases_left > 0 (checked by GD-4)',
-    "io::fasta::IndexedReaderIterator::<'a, R>::fill_buffer|overflow-sub|arg1.bases_left,(Try>::branch(IndexedReader::read_line(arg1.reader,arg1.record,arg1.line_offset,cmp::min(Vec::capacity(arg1.buf),arg1.bases_left),arg1.buf)) as Continue).0":
+    "io::fasta::IndexedReaderIterator::<'a, R>::fill_buffer|overflow-sub|arg1.bases_left,val(IndexedReader::read_line(arg1.reader,arg1.record,arg1.line_offset,cmp::min(Vec::capacity(arg1.buf),arg1.bases_left),arg1.buf))":
         'read_line returns at most bases_to_read <= bases_left',
 }
 
